@@ -5,6 +5,7 @@ SAEnvs == {1, 2}
 SAAgents == {1}
 MAEnvs == {1, 2}
 MAAgents == {1, 2}
+OneEnv == {1}
 AllKinds == {"term", "trunc", "both"}
 TwoKinds == {"term", "trunc"}
 ================================================================================
